@@ -207,6 +207,23 @@ def _is_tensor_type(t):
     return s.startswith("Tensor") or s.startswith("List[Tensor") or s.startswith("Optional[Tensor") or s.startswith("List[Optional[Tensor")
 
 
+def _attr_accepts(attr_type, torch_type):
+    """May a (non-tensor) ATen argument of this type be stored in an ONNX attribute of this type?  Only clear
+    mismatches are rejected (a number into a string, a float into an integer attribute, a list into a scalar ...);
+    Scalar / SymInt / ScalarType / Optional forms are accepted where a numeric attribute can hold them."""
+    import onnx_ir as ir
+    A = ir.AttributeType
+    t = str(torch_type).replace("Optional[", "").rstrip("]") if str(torch_type).startswith("Optional[") else str(torch_type)
+    scal = {"int": {A.INT, A.FLOAT}, "SymInt": {A.INT, A.FLOAT}, "bool": {A.INT}, "float": {A.FLOAT}, "str": {A.STRING},
+            "number": {A.INT, A.FLOAT}, "Scalar": {A.INT, A.FLOAT}, "ScalarType": {A.INT}, "Layout": {A.INT}, "MemoryFormat": {A.INT}, "Device": {A.STRING, A.INT}}
+    lst = {"List[int]": {A.INTS}, "List[SymInt]": {A.INTS}, "List[float]": {A.FLOATS}, "List[bool]": {A.INTS}, "List[str]": {A.STRINGS}}
+    if t in scal:
+        return attr_type in scal[t]
+    if t in lst:
+        return attr_type in lst[t]
+    return True   # types this table does not know are not judged
+
+
 def s_registry_data(_ctx):
     import onnx
     import onnx_ir as ir
@@ -288,6 +305,9 @@ def s_registry_data(_ctx):
             if _is_tensor_type(a.type):
                 agg.ob("C16.registry.tensor_argument_goes_to_an_input_parameter", isinstance(p, ir.schemas.Parameter),
                        f"{where}: tensor argument '{a.name}: {a.type}' bound to attribute parameter '{p.name}'", cl, case=f"{qn}:{a.name}")
+            elif isinstance(p, ir.schemas.AttributeParameter) and a.name not in DROPPABLE:
+                agg.ob("C16.registry.non_tensor_argument_goes_to_a_parameter_that_accepts_it", _attr_accepts(p.type, a.type),
+                       f"{where}: positional schema argument #{i} '{a.name}: {a.type}' lands on attribute parameter '{p.name}' of type {p.type.name}", cl, case=f"{qn}:{a.name}")
         for a in kwo:
             match = [p for p in params if p.name == a.name]
             if not match:
@@ -299,6 +319,9 @@ def s_registry_data(_ctx):
             if _is_tensor_type(a.type):
                 agg.ob("C16.registry.tensor_argument_goes_to_an_input_parameter", isinstance(p, ir.schemas.Parameter),
                        f"{where}: tensor argument '{a.name}' bound to attribute parameter", cl, case=f"{qn}:{a.name}")
+            elif isinstance(p, ir.schemas.AttributeParameter) and a.name not in DROPPABLE:
+                agg.ob("C16.registry.non_tensor_argument_goes_to_a_parameter_that_accepts_it", _attr_accepts(p.type, a.type),
+                       f"{where}: keyword-only schema argument '{a.name}: {a.type}' bound to attribute parameter '{p.name}' of type {p.type.name}", cl, case=f"{qn}:{a.name}")
         for p in params:
             if p.name in bound:
                 continue
